@@ -334,7 +334,10 @@ class Container:
                 if name in self._data:
                     val = self._data[name]
                     if isinstance(val, np.ndarray):
-                        pt._data[name] = val[idx]
+                        # Index into the valid part of the buffer only: the
+                        # buffer is allocated up to the container's capacity,
+                        # so negative indexes must count from `_size`.
+                        pt._data[name] = val[: self._size][idx]
         return pt
 
     def _expand_capacity(self) -> None:
